@@ -18,7 +18,7 @@ META = {
                    'adaptive_step_size: all accept/reject paths of the step-size controller (inner solves and norms are arbitrary positive reals), bounded '
                    'to N loop iterations: accepted times strictly increase and never exceed time_end; inputs unchanged. implicit_inner: one step with the REAL '
                    'alternating solver inside (solve / LU as fresh-symbol stubs): every micro system equals the Galerkin projection of the step equation '
-                   '(I - c h A) x = rhs onto the current frame and is exactly what the micro-solver is asked to solve (real and complex, ALS/MALS, both micro-solvers). reused_objects: integrators and error estimators called with an operator and a state that were used before and then changed in place reproduce the recurrence of the current objects.',
+                   '(I - c h A) x = rhs onto the current frame and is exactly what the micro-solver is asked to solve (real and complex, ALS/MALS, both micro-solvers). reused_objects: integrators and error estimators called with an operator and a state that were used before and then changed in place reproduce the recurrence of the current objects. hod is also run with the differencing operator supplied by the caller (op_hod).',
     'bounds': {'quick': 'orders 2-3, mode size 2 (one size-1 mode), operator/state ranks {1,2}, real and complex, 1-3 steps, normalize 0/1/2, HOD orders 2 and 4, '
                         'adaptive controller: 3 loop iterations',
                'thorough': 'more shapes, 4 controller iterations'},
